@@ -698,6 +698,30 @@ Proof. intros two tr n imps. destruct two, tr; cbn; split; lia. Qed.
 Theorem inverse_applied_everywhere_all : inverse_on_dense = true /\ inverse_on_diagonal = true /\ inverse_on_matvec = true.
 Proof. repeat split. Qed.
 
+(* ------------------------------------------------------------------ the operator of the omega branch *)
+(* dense meaning of an operator expression over ANY module of operators (M, add, scale, one) with scalars K:
+   `given` is the operator handed to optimize_mps, `modelH` the Hamiltonian of its model (offset o: modelH - o) *)
+Section OmegaOperator.
+Variables (M K : Type) (madd : M -> M -> M) (mscale : K -> M -> M) (mone : M) (kopp : K -> K) (kzero : K).
+Variable omega : K.
+Variables given modelH : M.
+Definition coef_den (c : ocoef) : K := match c with CNegOmega => kopp omega | COmega => omega | CZero => kzero end.
+Fixpoint op_den (e : opexpr) : M :=
+  match e with
+  | OGiven => given
+  | OIdentity => mone
+  | OScale c e' => mscale (coef_den c) (op_den e')
+  | OAdd a b => madd (op_den a) (op_den b)
+  | OModel o => madd modelH (mscale (kopp (coef_den o)) mone)
+  end.
+End OmegaOperator.
+
+(* for EVERY given operator (whatever the model's own Hamiltonian is) the operator whose square is minimised is  given - omega * 1 *)
+Theorem omega_operator_is_given_minus_omega_all :
+  forall (M K : Type) (madd : M -> M -> M) (mscale : K -> M -> M) (mone : M) (kopp : K -> K) (kzero omega : K) (given modelH : M),
+  op_den M K madd mscale mone kopp kzero omega given modelH omega_shifted_operator = madd given (mscale (kopp omega) mone).
+Proof. intros. reflexivity. Qed.
+
 (* ------------------------------------------------------------------ eigen-solver dispatch *)
 From Coq Require Import String.
 (* a branch asks for the algebraically smallest eigenpair(s) *)
